@@ -27,7 +27,8 @@ are the trace of the uninterrupted history (`CEv.ref`: the same events without c
 `C08_plain_same_outcome`, `C08_plain_no_reexecution_no_skip`, `C08_plain_same_point`, `C08_plain_restore_at_boundary`;
 `C08_plain_bundle_roundtrip` links `saveCfg` / `restoreCfg` to `Persist.save` / `Persist.load` of C07.
 Hypothesis besides admissibility of the cuts: no callback of the uninterrupted run exhausts the model's fuel (`fuelOk`, as
-in C05 / C06).  Not covered by the theorem: pause / play / kill requests in the history (C05 / C04 treat them without
+in C05 / C06).  By the shape of `CEv.tick cuts` the stepping task of a restored instance gets its first callback before the
+environment's next request (the harness creates the task on restore and runs it until quiescent before it wakes the process).  Not covered by the theorem: pause / play / kill requests in the history (C05 / C04 treat them without
 crashes), work-chain steps that await futures (a WAITING state holding live awaitables cannot be saved, C07).  The tie to
 the code is `pmodel restoreplain` (lean/Driver/PlainRestore.lean): every plain-process crash-restore chain of
 harness/props/c08.py is also run through `crun` and compared (trace, final state, number of restores).
